@@ -18,7 +18,7 @@ RULE_TEXT = (
     "contributes the transport-level view and the interleaving with notification traffic. non-trivial = at least one reply or required "
     "silence was judged; distinct = distinct (failing-check pattern, message type, handler kind, channel) combinations"
 )
-PROBES = ["responses", "errors", "silent", "multicast_requests", "coalesced_datagrams", "several_checks_fail", "undecodable_tail"]
+PROBES = ["late_registration", "responses", "errors", "silent", "multicast_requests", "coalesced_datagrams", "several_checks_fail", "undecodable_tail"]
 RUNS = {"quick": 12000, "thorough": 1500000}
 SVC = {"svc": 0x4321, "inst": 1, "major": 2, "minor": 0, "methods": {"1": "echo", "2": "none", "3": "malformed", "4": "empty", "32768": "echo"},
        "eventgroups": [{"id": 1, "interval": 0.05, "values": {"1": "aabb"}}]}
@@ -34,7 +34,7 @@ def rand_msg(r):
     u = r.random()
     svc = SVC["svc"] if u < 0.8 else r.choice([SVC["svc"] + 1, 0xFFFF, 0])
     iface = SVC["major"] if r.random() < 0.8 else r.choice([SVC["major"] + 1, 0, 0xFF])
-    method = r.choice([1, 1, 2, 3, 4, 32768]) if r.random() < 0.8 else r.choice([5, 0, 0x7FFF, 0x8001, 0xFFFF])
+    method = r.choice([1, 1, 2, 3, 4, 32768]) if r.random() < 0.75 else r.choice([5, 6, 5, 0, 0x7FFF, 0x8001, 0xFFFF])
     mtype = r.choice([0, 0, 0, 1]) if r.random() < 0.75 else r.choice(MTYPES)
     rc = 0 if r.random() < 0.8 else r.randint(1, 10)
     n = r.choice([0, 0, 1, 2, 8, 255, 256, 1400]) if r.random() < 0.8 else r.randint(0, 1400)
@@ -49,6 +49,12 @@ def gen(seed, idx, tier):
     t = 0.01
     if r.random() < 0.6:
         ops.append({"k": "sd", "t": 0.005, "p": 2, "ch": "u", "e": [["sub", SVC["svc"], 1, 2, 1, 0xFFFFFF, 0, [["ep", 4, "10.0.0.13", 17, 4000]]]]})
+    late = {}
+    if r.random() < 0.3:
+        # a method that is registered only after requests for its id have already been refused
+        late = {r.choice([5, 6]): round(r.uniform(0.02, 0.4), 6)}
+        for mid, tl in late.items():
+            ops.append({"k": "call", "t": tl, "f": "register_method", "a": [mid, r.choice(["echo", "empty"])]})
     for _ in range(r.randint(3, 30)):
         t = round(t + r.choice([0.0, 0.0, 0.001, 0.02, 0.05]), 6)
         n = 1 if r.random() < 0.7 else r.randint(2, 4)
@@ -125,7 +131,13 @@ def check(plan, res):
                     viol.append(("REPLY", {"msg": f"reply payload of {len(rm.payload)} bytes, expected {len(pl)} bytes for {descr}", "context": "payload"}))
         pending, got = None, []
 
+    methods = dict(sc["methods"])
     for seq, it, T, actor, kind, data in res.log:
+        if kind == "op" and data[2] == "register_method":
+            close()
+            methods[str(data[3][0])] = data[3][1]
+            probe("late_registration")
+            continue
         if kind == "rx":
             close()
             ch, src, payload, to = data
@@ -139,11 +151,11 @@ def check(plan, res):
             exp = []
             descs = []
             for m in msgs:
-                e, why = expected_reply(m, sc["methods"], sc["svc"], sc["major"])
+                e, why = expected_reply(m, methods, sc["svc"], sc["major"])
                 exp.append(None if e is None else (m, e))
                 descs.append(why)
-                states.add(hash((why, m.mtype, ch, nfail(m, sc["methods"], sc["svc"], sc["major"]))) & 0xFFFFFFFFFFFF)
-                if nfail(m, sc["methods"], sc["svc"], sc["major"]) > 1:
+                states.add(hash((why, m.mtype, ch, nfail(m, methods, sc["svc"], sc["major"]))) & 0xFFFFFFFFFFFF)
+                if nfail(m, methods, sc["svc"], sc["major"]) > 1:
                     probe("several_checks_fail")
                 if ch == "m":
                     probe("multicast_requests")
